@@ -154,7 +154,7 @@ func run(t *topo, recvFirst bool) {
 	for _, s := range t.senders {
 		s := s
 		calls = append(calls, kit.Start(fmt.Sprintf("Send:%d", s), func() (interface{}, error) {
-			return nil, socks[s].Send([]byte(fmt.Sprintf("from-%d", s)))
+			return nil, kit.SendBytes(socks[s], []byte(fmt.Sprintf("from-%d", s)))
 		}))
 	}
 	kit.Quiesce()
@@ -253,7 +253,7 @@ func payloads() {
 	kit.Quiesce()
 	seq := []string{"", "\x00", "x", "\x00\x00\x00\x00", "\x00\x00\x00\x01", "\x00\x00\x00\x08rest", "\x80\x00\x00\x01", "", string(make([]byte, 300)), "last"}
 	for _, b := range seq {
-		cl := kit.Start("Send", func() (interface{}, error) { return nil, socks[sender].Send([]byte(b)) })
+		cl := kit.Start("Send", func() (interface{}, error) { return nil, kit.SendBytes(socks[sender], []byte(b)) })
 		kit.Quiesce()
 		if !cl.Done() || cl.Err != nil {
 			kit.Failf("send-stuck", "Send(%q) done=%v %s", b, cl.Done(), kit.ErrName(cl.Err))
@@ -328,7 +328,7 @@ func starChain() {
 	if from == 1 {
 		sender = c.n - 1
 	}
-	cl := kit.Start("Send", func() (interface{}, error) { return nil, socks[sender].Send([]byte("along-the-chain")) })
+	cl := kit.Start("Send", func() (interface{}, error) { return nil, kit.SendBytes(socks[sender], []byte("along-the-chain")) })
 	kit.Quiesce()
 	if !cl.Done() || cl.Err != nil {
 		kit.Failf("send-stuck", "Send done=%v %s", cl.Done(), kit.ErrName(cl.Err))
@@ -383,7 +383,7 @@ func xstarRaw() {
 		leaves = append(leaves, l)
 	}
 	kit.Quiesce()
-	c := kit.Start("Send:leaf0", func() (interface{}, error) { return nil, leaves[0].Send([]byte("hello")) })
+	c := kit.Start("Send:leaf0", func() (interface{}, error) { return nil, kit.SendBytes(leaves[0], []byte("hello")) })
 	kit.Quiesce()
 	if !c.Done() || c.Err != nil {
 		kit.Failf("send-stuck", "leaf send: done=%v %s", c.Done(), kit.ErrName(c.Err))
